@@ -80,6 +80,12 @@ def shards(tier):
     for lm in (0, 1):
         for t in (1, 2):
             out.append({'faults': t, 'lm': lm})
+    for t in range(1, T):            # an LSTM-like LM whose state is a pair of tensors, one frame shorter
+        if t <= 2:
+            out.append({'T': t, 'lm': 4, 'prefix': []})
+        else:
+            for p in itertools.product(range(NR), repeat=t - 2):
+                out.append({'T': t, 'lm': 4, 'prefix': list(p)})
     for lm in LMS:
         out.append({'factory': lm})
         for t in range(1, T):       # lines with blank-only frames (incl. lines on which nothing but the blank is possible), one frame shorter
@@ -112,7 +118,10 @@ def run_shard(shard, ctx, tier):
 
 
 def h_value(h):
-    return float(h.prepare_for_torch().reshape(-1)[0])        # (public accessor of the wrapped LM state)
+    """the wrapped LM state as a tuple of (shape, values) per tensor (public accessor; a state may be one tensor or a tuple of tensors)"""
+    t = h.prepare_for_torch()
+    parts = t if isinstance(t, tuple) else (t,)
+    return tuple((tuple(x.shape), tuple(float(v) for v in x.reshape(-1))) for x in parts)
 
 
 def seq_score(w, h0, transcript, bonus, eos, memo):
@@ -250,7 +259,7 @@ def check_faults(case, ctx):
             ctx.violation('result-maximises-fused-score', f'{ID}/lm{lm}/after-a-failed-lm-call/not-the-maximum', f'{desc}; best_hyp() = {best!r}, maximal: {tied}')
             return
         _, hwant = seq_score(w, h0, best, bonus, False, memo)
-        if hret.prepare_for_torch().shape != hwant.prepare_for_torch().shape or h_value(hret) != h_value(hwant):
+        if h_value(hret) != h_value(hwant):
             ctx.violation('returned-state-is-state-of-result', f'{ID}/lm{lm}/after-a-failed-lm-call/returned-state',
                           f'{desc}; returned LM state {h_value(hret)}, feeding {best!r} gives {h_value(hwant)}')
             return
@@ -268,6 +277,8 @@ def check_case(case, ctx):
         lp = np.log(np.asarray(M, dtype=float))
     w = wrapper(lm)
     ctx.state((tuple(rows), lm))
+    if lm == 4:
+        ctx.tag('language-model-with-a-tuple-state')
     if 'cfg' in case:
         configs = [tuple(case['cfg'])]
     else:
@@ -340,7 +351,7 @@ def check_case(case, ctx):
                               f'{desc}; confidence() = {conf}, posterior of {top!r} = {post}', sub)
                 continue
             _, hwant = seq_score(w, h0, top, bonus, False, memo)
-            if hret.prepare_for_torch().shape != hwant.prepare_for_torch().shape or h_value(hret) != h_value(hwant):
+            if h_value(hret) != h_value(hwant):
                 ctx.violation('returned-state-is-state-of-result', f'{K}/returned-state',
                               f'{desc}; returned LM state {h_value(hret)} but feeding {top!r} gives {h_value(hwant)}', sub)
                 continue
@@ -358,7 +369,7 @@ def check_case(case, ctx):
                               f'{desc}; best_hyp() = {best!r}, the maximal (tied) hypotheses are {tied}', sub)
                 continue
             _, hwant = seq_score(w, h0, best, bonus, False, memo)
-            if hret.prepare_for_torch().shape != hwant.prepare_for_torch().shape or h_value(hret) != h_value(hwant):
+            if h_value(hret) != h_value(hwant):
                 ctx.violation('returned-state-is-state-of-result', f'{K}/returned-state-on-a-tie',
                               f'{desc}; {tied} tie; best_hyp() hands on {best!r} but the returned LM state {h_value(hret)} is not its state '
                               f'{h_value(hwant)}', sub)
@@ -436,9 +447,9 @@ def describe(tier):
                 'initial states. state = (matrix, LM). Non-trivial: configurations in which the LM changes the winning hypothesis with '
                 'respect to the visual score alone; counter scale-changes-the-winner = winner differs from the unscaled (scale 1) choice.',
         'bounds': dict(BOUNDS[tier], scales=SCALES, bonus=BONUS, ks=KS, eos=EOS, init=INIT, eps=EPS),
-        'alphabets': {'rows': ROWS, 'lms': ['hash(5)/scoreA', 'hash(7)/scoreB', 'constant']},
+        'alphabets': {'rows': ROWS, 'lms': ['hash(5)/scoreA', 'hash(7)/scoreB', 'constant', '(kind 4) LSTM-like pair state (h, c) / scoreA, T one shorter']},
         'assumptions': ['LM vocabulary == decoder letters (the decoder indexes LM columns by letter index)',
                         'arg-max clauses are skipped when the two best fused scores are within 1e-9'],
         'min_nontrivial': 100,
-        'required_tags': ['language-model-failure-injected', 'best-hypothesis-begins-or-ends-with-a-space', 're-weighted-bag-changes-the-winner', 'decoder-built-from-configuration', 'tie-handled-consistently', 'decoder-reused-for-another-line', 'lm-changes-the-winner', 'scale-changes-the-winner', 'scale-zero-cases', 'beam-pruned'],
+        'required_tags': ['language-model-with-a-tuple-state', 'language-model-failure-injected', 'best-hypothesis-begins-or-ends-with-a-space', 're-weighted-bag-changes-the-winner', 'decoder-built-from-configuration', 'tie-handled-consistently', 'decoder-reused-for-another-line', 'lm-changes-the-winner', 'scale-changes-the-winner', 'scale-zero-cases', 'beam-pruned'],
     }
